@@ -95,6 +95,8 @@ fn decode_feed(c: &mut Cur) -> Feed {
             fail_at: None,
             line_bounded: false,
             overreport: None,
+            sticky: false,
+            wrapped: false,
         }
         .normalised(),
         chunk,
@@ -204,6 +206,7 @@ pub fn decode_history(data: &[u8]) -> History {
     if fail % 4 == 1 {
         let k = (fail_frac as usize * (data.len() + 1)) >> 16;
         feed.sched.fail_at = Some((k, ErrKind::all()[(fail / 4) as usize % 15]));
+        feed.sched.sticky = fail & 0x80 != 0;
     }
     if over % 5 == 1 {
         feed.sched.overreport = Some((1 + (over / 5) as u32 % 5, (over / 25) as u32));
